@@ -1311,7 +1311,20 @@ func vRunC08Case(out *vOut, r *vRand, id int, stats map[string]int) {
 	}
 	nops := 6 + r.intn(20)
 	for i := 0; i < nops && !c.viol; i++ {
-		switch r.pick(10, 3, 3, 2, 1, 2) {
+		switch r.pick(10, 3, 3, 2, 1, 2, 2, 4) {
+		case 6:
+			// readers that stay open across compactions: having crossed the gaps one compaction left, they go on
+			// from where they are after the next one has replaced the segment under them
+			nw := c.l.NewestOffset()
+			if r.intn(2) == 0 {
+				c.doReaderOpen(int64(r.intn(int(nw)+2)), true)
+			} else {
+				c.doReaderOpen(int64(r.intn(int(c.l.HighWatermark())+2)), false)
+			}
+		case 7:
+			if live := c.liveReaders(); len(live) > 0 {
+				c.doReaderNext(live[r.intn(len(live))])
+			}
 		case 0:
 			n := 1 + r.pick(5, 3, 2)
 			var msgs []*Message
@@ -1358,6 +1371,11 @@ func vRunC08Case(out *vOut, r *vRand, id int, stats map[string]int) {
 		c.doCompact()
 		c.layout()
 		c.state()
+	}
+	if !c.viol {
+		for _, lr := range c.liveReaders() {
+			c.doReaderNext(lr)
+		}
 	}
 	if !c.viol {
 		c.readSweep(r, true)
